@@ -231,11 +231,11 @@ class Harness:
         self.cur = None
         if len(data) > wire.MAX_ABS:
             return
-        if not self.guards.check(rsock.label, data, t_ms):
+        if not self.guards.check(rsock.label, data, t_ms, addr):
             self.stats["suppressed"] += 1
             return
         msg = wire.try_decode(data)
-        self.guards.accept(rsock.label, data, t_ms, bool(msg and any(q.qu for q in msg.questions)))
+        self.guards.accept(rsock.label, data, t_ms, bool(msg and any(q.qu for q in msg.questions)), addr)
         if msg is None:
             self.stats["invalid"] += 1
             self.cur = ("invalid", None)
